@@ -25,8 +25,17 @@ fn observe_variant(variant: &str, bytes: &[u8]) -> String {
         _ => {}
     }
     let o = p.metadata.get_package_segment_offsets();
+    // "the bytes produced by writing the package": every other case writes through a sink that takes at most three bytes per
+    // call and is interrupted now and then — the written bytes, and with them the boundaries, must not depend on the sink
+    // (seeds C16-6, C16-8: a single `write` for the intro / the padding)
     let mut w = Vec::new();
-    if p.write(&mut w).is_err() {
+    if bytes.len() % 2 == 1 {
+        let mut t = Trickle { got: Vec::new(), calls: 0 };
+        if p.write(&mut t).is_err() {
+            return "err-write".into();
+        }
+        w = t.got;
+    } else if p.write(&mut w).is_err() {
         return "err-write".into();
     }
     let intro_at = |pos: u64| -> bool {
@@ -37,6 +46,24 @@ fn observe_variant(variant: &str, bytes: &[u8]) -> String {
         "ok {} {} {} {} wlen={} clen={} i1={} i2={}",
         o.lead, o.signature_header, o.header, o.payload, w.len(), p.content.len(), intro_at(o.signature_header), intro_at(o.header)
     )
+}
+
+/// accepts at most three bytes per call; every seventh call is `Interrupted`
+struct Trickle {
+    got: Vec<u8>,
+    calls: u64,
+}
+impl Write for Trickle {
+    fn write(&mut self, b: &[u8]) -> std::io::Result<usize> {
+        self.calls += 1;
+        if self.calls % 7 == 0 {
+            return Err(std::io::Error::from(std::io::ErrorKind::Interrupted));
+        }
+        let n = b.len().min(3);
+        self.got.extend_from_slice(&b[..n]);
+        Ok(n)
+    }
+    fn flush(&mut self) -> std::io::Result<()> { Ok(()) }
 }
 
 /// a counting sink: remembers where header intros start without storing 4 GiB
